@@ -48,6 +48,8 @@ def concretise(case, rot):
             # (15 s also in megaseconds: prefix SYMBOLS are case-sensitive, `Ms` is not `ms`; the schema declares the factor of M as 10e6,
             #  i.e. 1e7 - observation O4 - so 15 s is 0.0000015 Ms by the schema's own table)
             "doff": ["(Delay/15 s, Def/Aaa, Offset)", "(Delay/15000 ms, Offset, Def/AAA)", "(Delay/0.0000015 Ms, Def/Aaa, Offset)"][rot % 3]}
+    hmap["ona"] = [a + ", " + hmap["on"], hmap["on"] + ", " + a][(rot // 2) % 2]
+    hmap["offa"] = ["(Def/Aaa, Offset), " + a, a + ", (Offset, Def/aaa)"][(rot // 2) % 2]
     sidecar = {"cat": {"HED": {"ka": a, "kb": b, "kbad": bad}}}
     cmap = {"a": "ka", "b": "kb", "bad": "kbad", "na": "n/a", "unk": "kzz"}
     rows = case["rows"]
